@@ -1,6 +1,8 @@
 (* Correspondence check for C15: plans recorded from the real planners (dry-run)
    on random topology snapshots.  Trace acceptance against the model's transition
-   relation, the property oracle on every step of the IMPLEMENTATION's plan. *)
+   relation, the property oracle on every step of the IMPLEMENTATION's plan; a failing
+   clause is excused only when EVERY failing step lies in the trigger set of a known finding
+   evaluated for that step alone ([excused] / [balance_cap_excused] of the model). *)
 From Coq Require Import List NArith ZArith Bool Arith.
 From SW Require Export base.Verdict model.VolPlanner.
 Import ListNotations.
@@ -8,8 +10,14 @@ Import ListNotations.
 Inductive run :=
 | RBalance (limit : N) (colls : list (option N)) (dts : list N) (trace : list step)
            (final_reps : list (N * list loc)) (* planner's volumeReplicas afterwards: vid -> (dc, rack, server) *)
-| REvac (this : N) (skip : bool) (evs : list eevent)
+| REvac (this : N) (skip : bool) (notfound : bool) (evs : list eevent)
+        (* notfound: the run ended with "<server> is not found in this cluster" *)
 | RFix (retry : nat) (evs : list fevent)
+       (final_counts : list (N * N * Z))   (* DiskInfo.VolumeCount afterwards: (server, disk type, count) *)
+       (final_reps : list (N * list N))    (* volumeReplicas afterwards: vid -> servers, bookkeeping order *)
+| REvacEc (es : list ecnode)            (* EC half of evacuate: servers with the free EC slots the real code computed *)
+          (raw : list (N * Z * Z))      (* server, MaxVolumeCount, ActiveVolumeCount of the hard-drive disk *)
+          (this : N) (skip notfound : bool) (evs : list ecevent)
 | RGoodMove (b : N) (reps : list loc) (src tgt : loc) (impl : bool)
 | RSatisfy (b : N) (reps : list loc) (c : loc) (impl : bool)
 | RPlacement (b : N) (x y z copies : nat).
@@ -35,67 +43,113 @@ Fixpoint list_loc_eqb (a b : list loc) : bool :=
 Definition reps_agree (w : world) (obs : list (N * list loc)) : bool :=
   forallb (fun p => list_loc_eqb (locs (w_reps w (fst p))) (snd p)) obs.
 
-(* every failing clause must be explained by an active trigger of a finding about that clause *)
-Definition explain (fails : list (bool * list (N * bool))) : option N :=
-  let active (c : list (N * bool)) := filter (fun kb : N * bool => snd kb) c in
-  if forallb (fun f : bool * list (N * bool) =>
-                negb (fst f) || match active (snd f) with [] => false | _ => true end) fails then
-    match flat_map (fun f : bool * list (N * bool) => if fst f then active (snd f) else []) fails with
-    | [] => None
-    | (k, _) :: _ => Some k
+(* volume.fix.replication in dry-run changes no replica list (pickOneReplicaToDelete only
+   sorts one in place) and counts every planned copy in the target disk's VolumeCount *)
+Definition fix_state_agrees (s : snapshot) (evs : list fevent)
+  (counts : list (N * N * Z)) (reps : list (N * list N)) : bool :=
+  Nat.eqb (length counts) (length (flat_map n_disks s)) &&
+  forallb (fun c => match c with (id, dt, n) =>
+                      match fix_final_count s evs id dt with Some m => (m =? n)%Z | None => false end end) counts &&
+  Nat.eqb (length reps) (length (all_vids s)) &&
+  forallb (fun p => is_perm_N (snd p) (map (fun r => l_node (r_loc r)) (reps_of s (fst p)))) reps.
+
+(* [cl]: (clause holds on the whole plan, Some (k, every failing step is in the trigger set of finding k)) *)
+Definition explain (cl : list (bool * option (N * bool))) : option N :=
+  if forallb (fun c : bool * option (N * bool) =>
+                fst c || match snd c with Some (_, true) => true | _ => false end) cl then
+    match filter (fun c : bool * option (N * bool) => negb (fst c)) cl with
+    | (_, Some (k, _)) :: _ => Some k
+    | _ => None
     end
   else None.
 
-Definition outcome_of (corr : bool) (v : verdict4) (expl : verdict4 -> option N) (nontr : bool) : outcome :=
-  {| o_corr := corr; o_prop := v4_all v; o_trig := if v4_all v then None else expl v; o_nontrivial := nontr |}.
+Definition outcome_of (corr : bool) (v : verdict4) (expl : option N) (nontr : bool) : outcome :=
+  {| o_corr := corr; o_prop := v4_all v; o_trig := if v4_all v then None else expl; o_nontrivial := nontr |}.
 
 Definition check (c : case) : outcome :=
   let s := c_snap c in
+  let w0 := init_world s in
   match c_run c with
   | RBalance limit colls dts tr obs =>
-      let v := prop_trace s (init_world s) tr in
+      let v := prop_trace s w0 tr in
       outcome_of
         (match balance_accepts limit s colls dts tr with
          | Some w => reps_agree w obs | None => false end)
         v
-        (fun v => explain
-           [ (negb (ok_coloc v), []);
-             (negb (ok_cap v), [(0%N, trig_balance_cap limit s (phases_of colls dts) (init_world s) tr)]);
-             (negb (ok_pres v), [(2%N, trig_rp_xy s)]);
-             (negb (ok_repair v), []) ])
+        (explain
+           [ (ok_coloc v, None);
+             (ok_cap v, Some (0%N, balance_cap_excused limit s (phases_of colls dts) w0 tr));
+             (ok_pres v, Some (2%N, excused ok_pres step_rp_trig s w0 tr));
+             (ok_repair v, None) ])
         (match tr with [] => false | _ => true end)
-  | REvac this skip evs =>
+  | REvac this skip notfound evs =>
       let tr := evac_steps this evs in
-      let v := prop_trace s (init_world s) tr in
-      outcome_of (evac_accepts s this skip evs) v
-        (fun v => explain
-           [ (negb (ok_coloc v), []);
-             (negb (ok_cap v), [(1%N, trig_evac_cap s this)]);
-             (negb (ok_pres v), [(2%N, trig_rp_xy s)]);
-             (negb (ok_repair v), []) ])
+      let v := prop_trace s w0 tr in
+      outcome_of
+        (match find_node s this with
+         | None => notfound && match evs with [] => true | _ => false end
+         | Some _ => negb notfound && evac_accepts s this skip evs
+         end)
+        v
+        (explain
+           [ (ok_coloc v, None);
+             (ok_cap v, Some (1%N, excused ok_cap (step_evac_trig s this) s w0 tr));
+             (ok_pres v, Some (2%N, excused ok_pres step_rp_trig s w0 tr));
+             (ok_repair v, None) ])
         (match tr with [] => false | _ => true end)
-  | RFix retry evs =>
+  | RFix retry evs counts reps =>
       let tr := fix_steps evs in
-      let v := prop_trace s (init_world s) tr in
-      outcome_of (fix_accepts s retry evs) v
-        (fun v => explain
-           [ (negb (ok_coloc v), []);
-             (negb (ok_cap v), []);
-             (negb (ok_pres v), []);
-             (negb (ok_repair v), []) ])
+      let v := prop_trace s w0 tr in
+      outcome_of (fix_accepts s retry evs && fix_state_agrees s evs counts reps) v
+        (explain
+           [ (ok_coloc v, None);
+             (ok_cap v, None);
+             (ok_pres v && all_steps purge_count_ok s w0 tr, Some (3%N, excused ok_pres step_delete_trig s w0 tr && all_steps purge_count_ok s w0 tr));
+             (ok_repair v, None) ])
         (match tr with [] => false | _ => true end)
+  | REvacEc es raw this skip notfound evs =>
+      let others := ec_others es this in
+      let cap := ec_ok_cap others evs in
+      outcome_of
+        (match ec_find es this with
+         | None => notfound && match evs with [] => true | _ => false end
+         | Some _ => negb notfound && ec_evac_accepts es this skip evs
+         end &&
+         (* countFreeShardSlots: (MaxVolumeCount - ActiveVolumeCount) * DataShardsCount - shards *)
+         Nat.eqb (length raw) (length es) &&
+         forallb (fun r => match r with (id, mx, act) =>
+                    match ec_find es id with
+                    | Some n => (e_free n =? (mx - act) * 10 - ec_total (e_vols n))%Z
+                    | None => false end end) raw)
+        {| ok_coloc := true; ok_cap := cap; ok_pres := true; ok_repair := true |}
+        (explain [ (cap, Some (4%N, ec_cap_steps (ec_cap_trig es this) others evs)) ])
+        (existsb (fun e => match e with EcMove _ _ _ => true | _ => false end) evs)
   | RGoodMove b reps src tgt impl =>
-      outcome_of (Bool.eqb (is_good_move (rp_of_byte b) reps src tgt) impl) v4_true (fun _ => None) impl
+      (* oracle on the REAL isGoodMove's answer: never onto a holder; a valid layout stays valid
+         (unless x >= 1 and y >= 2, finding 2) *)
+      let p := rp_of_byte b in
+      let pres := implb (impl && valid_placement p reps && existsb (loc_eqb src) reps)
+                        (valid_placement p (relocate_loc src tgt reps)) in
+      outcome_of (Bool.eqb (is_good_move p reps src tgt) impl)
+        {| ok_coloc := implb impl (negb (existsb (fun r => (l_node r =? l_node tgt)%N) reps));
+           ok_cap := true; ok_pres := pres; ok_repair := true |}
+        (explain [ (implb impl (negb (existsb (fun r => (l_node r =? l_node tgt)%N) reps)), None);
+                   (pres, Some (2%N, rp_trig p)) ])
+        impl
   | RSatisfy b reps c0 impl =>
-      (* oracle: a copy the real satisfyReplicaPlacement admits keeps a completable set completable *)
-      outcome_of (Bool.eqb (satisfy (rp_of_byte b) reps c0) impl)
-        {| ok_coloc := true; ok_cap := true; ok_pres := true;
-           ok_repair := implb (impl && sub_placement (rp_of_byte b) reps) (sub_placement (rp_of_byte b) (c0 :: reps)) |}
-        (fun _ => None) impl
+      (* oracle: a copy the real satisfyReplicaPlacement admits goes to a server without the
+         volume, keeps a completable set completable, and is refused for a satisfied volume *)
+      let p := rp_of_byte b in
+      outcome_of (Bool.eqb (satisfy p reps c0) impl)
+        {| ok_coloc := implb impl (negb (existsb (fun r => (l_node r =? l_node c0)%N) reps));
+           ok_cap := true;
+           ok_pres := implb impl (negb (valid_placement p reps));
+           ok_repair := implb (impl && sub_placement p reps) (sub_placement p (c0 :: reps)) |}
+        None impl
   | RPlacement b x y z copies =>
       let p := rp_of_byte b in
       outcome_of (Nat.eqb (rp_dc p) x && Nat.eqb (rp_rack p) y && Nat.eqb (rp_same p) z && Nat.eqb (copy_count p) copies)
-        v4_true (fun _ => None) true
+        v4_true None true
   end.
 
 Definition summarize_cases (l : list case) : summary := summarize check l.
